@@ -520,6 +520,10 @@ def run(rep: Report) -> None:
     rep.check("R15.4", "Quantity.__init__:reader", "Unit.parse" in reads,
               "Quantity.__init__ no longer reads a unit text with Unit.parse: the stored str(unit) has no reader", qi.where())
     ev = evaluate()
+    from .c13 import prefixed_named_units
+    rep.rule("R15.14", "a quantity in a prefixed shipped named unit has a unit text the decoder can read (the members of the recorded leading-magnitude "
+             "defect, unit by unit - shared with C13 R13.9)", floor=100)
+    prefixed_named_units(rep, ev, "R15.14", "a quantity in that unit stored as JSON / SQL composite (unit text is str(unit)) does not decode")
     sh = extract_shipped()
     tables = normalise(sh.data, sh.memo)
     sa = StrAbs(prog, resolver)
